@@ -276,7 +276,8 @@ class DiscoveryCommunity(Community):
         dist = GlobalTimeDistributionPayload(global_time)
 
         packet = self._ez_pack(self._prefix, 3, [dist, payload], False)
-        self.request_cache.add(PingRequestCache(self.request_cache, global_time, peer, time()))
+        # The pong echoes the 16-bit identifier of the PingPayload: register the cache under that same number.
+        self.request_cache.add(PingRequestCache(self.request_cache, payload.identifier, peer, time()))
         self.endpoint.send(peer.address, packet)
 
     def create_pong(self, identifier: int) -> bytes:
